@@ -81,6 +81,11 @@ def symgrid(name_or_tuple, tag="", geometry="free", dom=None):
     v = np.asarray(v, dtype=float)
     e = np.asarray(e)
     g = b.Grid(v, e, None if d is None else np.asarray(d, dtype="uint32"))
+    return symbolize(g, tag, geometry)
+
+
+def symbolize(g, tag="", geometry="free"):
+    """replace the geometry arrays of an existing Grid object by symbols (see symgrid)."""
     NE = g.number_of_elements
     NV = g.number_of_vertices
     if geometry == "free":
